@@ -107,6 +107,23 @@ def extra_terms():
         ["GreedyRange", G.I(2, False, "b")],
         ["GreedyRange", ["Struct", [["a", B], ["b", ["CString", "ascii"]]]]],
         ["Struct", [["a", ["RawCopy", G.I(2, False, "b")]], ["b", B]]],
+        ["Struct", [["m", B], ["v", ["Aligned", ["this", "m"], B, b"\x00"]], ["t", B]]],
+        ["Struct", [["m", G.I(1, True, "b")], ["v", ["Aligned", ["this", "m"], ["VarInt"], b"\x00"]]]],
+        ["Struct", [["n", G.I(1, True, "b")], ["v", ["Padded", ["this", "n"], B, b"\x00"]]]],
+        ["Struct", [["n", G.I(1, True, "b")], ["v", ["FixedSized", ["this", "n"], ["GreedyBytes"]]]]],
+        ["Struct", [["n", G.I(1, True, "b")], ["v", ["PaddedString", ["this", "n"], "utf8"]]]],
+        ["Struct", [["n", G.I(1, True, "b")], ["v", ["BytesInteger", ["this", "n"], True, False]]]],
+        ["Struct", [["n", G.I(1, True, "b")], ["v", ["Array", ["this", "n"], ["VarInt"]]]]],
+        ["Struct", [["a", G.I(1, True, "b")], ["g", G.I(1, True, "b")], ["v", ["ProcessRotateLeft", ["this", "a"], ["this", "g"], ["GreedyBytes"]]]]],
+        ["Struct", [["k", B], ["v", ["ProcessXor", ["this", "k"], ["GreedyBytes"]]]]],
+        ["Struct", [["n", G.I(1, True, "b")], ["v", ["Bitwise", ["BitsInteger", ["bin", "*", ["this", "n"], ["k", 8]], True, False]]]]],
+        ["Struct", [["n", B], ["v", ["Bitwise", ["Struct", [["a", ["BitsInteger", ["path", ["_", "n"]], False, False]], ["r", ["GreedyBytes"]]]]]]]],
+        ["Struct", [["o", G.I(1, True, "b")], ["v", ["Pointer", ["this", "o"], G.I(2, False, "b")]]]],
+        ["Struct", [["o", G.I(1, True, "b")], ["w", B], ["v", ["Seek", ["this", "o"], ["this", "w"]]], ["x", B]]],
+        ["Struct", [["k", G.I(1, True, "b")], ["v", ["OffsettedEnd", ["this", "k"], ["GreedyBytes"]]]]],
+        ["Struct", [["n", B], ["v", ["RepeatUntil", ["ctxlenge", ["this", "n"]], B]]]],
+        ["Struct", [["n", G.I(1, True, "b")], ["v", ["LazyArray", ["this", "n"], B]]]],
+        ["Array", 2, ["Struct", [["n", B], ["v", ["Padding", ["bin", "-", ["this", "n"], ["k", 2]]]]]]],
         ["Aligned", 4, ["VarInt"], b"\x00"],
         ["Padded", 4, ["CString", "ascii"], b"\x00"],
     ]
